@@ -644,7 +644,7 @@ func (st *Runtime) executeInclude(node *IncludeNode) (returnValue reflect.Value)
 		node.errorf("evaluating name of template to include: name is not a valid value")
 	}
 	if name.Type().Implements(stringerType) {
-		templatePath = name.String()
+		templatePath = name.Interface().(fmt.Stringer).String()
 	} else if name.Kind() == reflect.String {
 		templatePath = name.String()
 	} else {
